@@ -305,6 +305,199 @@ PYX_RENAMES = [
 ]
 
 
+
+# ---------------------------------------------------------------------------
+# families added in the fourth round: refactorings a maintainer makes without changing behaviour
+# ---------------------------------------------------------------------------
+def _pure(e):
+    """expression without calls (except len), without walrus/await/yield: evaluating it earlier or twice changes nothing"""
+    for x in ast.walk(e):
+        if isinstance(x, ast.Call) and not (isinstance(x.func, ast.Name) and x.func.id == "len"):
+            return False
+        if isinstance(x, (ast.NamedExpr, ast.Await, ast.Yield, ast.YieldFrom, ast.Lambda, ast.ListComp, ast.SetComp, ast.DictComp, ast.GeneratorExp, ast.Starred)):
+            return False
+    return True
+
+
+def _stmt_lists(tree):
+    for n in ast.walk(tree):
+        for f in ("body", "orelse", "finalbody"):
+            v = getattr(n, f, None)
+            if isinstance(v, list) and v and isinstance(v[0], ast.stmt):
+                yield n, f, v
+
+
+def twins_annotate_assign(fn_name, src):
+    """x = e  ->  x: object = e   for the simple local assignments of every function (one twin per file)"""
+    t2 = ast.parse(src)
+    changed = 0
+    for fn in _functions(t2):
+        seen = set()
+        globs = {g for n in ast.walk(fn) if isinstance(n, (ast.Global, ast.Nonlocal)) for g in n.names}
+        for holder, f, lst in _stmt_lists(fn):
+            for k, st in enumerate(lst):
+                if isinstance(st, ast.Assign) and len(st.targets) == 1 and isinstance(st.targets[0], ast.Name) and st.targets[0].id not in globs and st.targets[0].id not in seen and holder is fn:
+                    seen.add(st.targets[0].id)
+                    lst[k] = ast.copy_location(ast.AnnAssign(target=st.targets[0], annotation=ast.Constant(value="object"), value=st.value, simple=1), st)
+                    changed += 1
+    if changed:
+        ast.fix_missing_locations(t2)
+        yield f"annotate-assign:{fn_name}", ast.unparse(t2)
+
+
+def twins_chain_compare(fn_name, src):
+    """a OP b OP c  ->  a OP b and b OP c (b pure);   a OP b and b OP c  ->  a OP b OP c"""
+    def split_ok(n):
+        return isinstance(n, ast.Compare) and len(n.ops) == 2 and _pure(n.comparators[0])
+    def merge_ok(n):
+        return (isinstance(n, ast.BoolOp) and isinstance(n.op, ast.And) and len(n.values) == 2 and all(isinstance(v, ast.Compare) and len(v.ops) == 1 for v in n.values)
+                and _pure(n.values[0].comparators[0]) and ast.dump(n.values[0].comparators[0]) == ast.dump(n.values[1].left)
+                and all(isinstance(v.ops[0], (ast.Lt, ast.LtE, ast.Gt, ast.GtE, ast.Eq)) for v in n.values))
+    tree = ast.parse(src)
+    sites = [n for n in ast.walk(tree) if split_ok(n) or merge_ok(n)]
+    for i in range(len(sites)):
+        if not _want(i):
+            continue
+        t2 = ast.parse(src)
+        class T(ast.NodeTransformer):
+            k = -1
+            def generic_visit(self, node):
+                node = super().generic_visit(node)
+                if split_ok(node) or merge_ok(node):
+                    T.k += 1
+                    if T.k == i:
+                        if isinstance(node, ast.Compare):
+                            return ast.BoolOp(op=ast.And(), values=[ast.Compare(left=node.left, ops=[node.ops[0]], comparators=[node.comparators[0]]),
+                                                                   ast.Compare(left=copy.deepcopy(node.comparators[0]), ops=[node.ops[1]], comparators=[node.comparators[1]])])
+                        a, b = node.values
+                        return ast.Compare(left=a.left, ops=[a.ops[0], b.ops[0]], comparators=[a.comparators[0], b.comparators[0]])
+                return node
+        T.k = -1
+        # count in the same (post-order) order as the transformer visits
+        T().visit(t2)
+        ast.fix_missing_locations(t2)
+        yield f"chain-compare:{fn_name}:{i}", ast.unparse(t2)
+
+
+def twins_extract_temp(fn_name, src):
+    """x = f(<pure expr>, ...)  ->  _tmp = <pure expr>; x = f(_tmp, ...)   (first positional argument of a call whose
+    callee is a plain name or attribute chain of names; the hoisted expression is pure, so evaluating it one step
+    earlier changes nothing)"""
+    def site(st):
+        if isinstance(st, (ast.Assign, ast.Return, ast.Expr, ast.AugAssign)) and isinstance(getattr(st, "value", None), ast.Call):
+            c = st.value
+            f = c.func
+            while isinstance(f, ast.Attribute):
+                f = f.value
+            if isinstance(f, ast.Name) and c.args and isinstance(c.args[0], (ast.BinOp, ast.Subscript, ast.Compare, ast.BoolOp, ast.IfExp)) and _pure(c.args[0]):
+                if isinstance(st, ast.AugAssign):
+                    return False
+                return True
+        return False
+    tree = ast.parse(src)
+    n_sites = sum(1 for fn in _functions(tree) for _, _, lst in _stmt_lists(fn) for st in lst if site(st))
+    for i in range(n_sites):
+        if not _want(i):
+            continue
+        t2 = ast.parse(src)
+        k = -1
+        done = False
+        for fn in _functions(t2):
+            for _, _, lst in _stmt_lists(fn):
+                for j, st in enumerate(lst):
+                    if site(st):
+                        k += 1
+                        if k == i and not done:
+                            tmp = ast.Assign(targets=[ast.Name(id="hoisted_value", ctx=ast.Store())], value=st.value.args[0])
+                            st.value.args[0] = ast.Name(id="hoisted_value", ctx=ast.Load())
+                            lst.insert(j, ast.copy_location(tmp, st))
+                            done = True
+                            break
+                if done:
+                    break
+            if done:
+                break
+        if done:
+            ast.fix_missing_locations(t2)
+            yield f"extract-temp:{fn_name}:{i}", ast.unparse(t2)
+
+
+def twins_return_ifexp(fn_name, src):
+    """if c: return a  /  return b   ->  return a if c else b     and the reverse"""
+    def fwd(lst, j):
+        return (j + 1 < len(lst) and isinstance(lst[j], ast.If) and not lst[j].orelse and len(lst[j].body) == 1 and isinstance(lst[j].body[0], ast.Return) and lst[j].body[0].value is not None
+                and isinstance(lst[j + 1], ast.Return) and lst[j + 1].value is not None)
+    def rev(lst, j):
+        return isinstance(lst[j], ast.Return) and isinstance(lst[j].value, ast.IfExp)
+    tree = ast.parse(src)
+    n_sites = sum(1 for fn in _functions(tree) for _, _, lst in _stmt_lists(fn) for j in range(len(lst)) if fwd(lst, j) or rev(lst, j))
+    for i in range(n_sites):
+        if not _want(i):
+            continue
+        t2 = ast.parse(src)
+        k = -1
+        done = False
+        for fn in _functions(t2):
+            for _, _, lst in _stmt_lists(fn):
+                for j in range(len(lst)):
+                    if fwd(lst, j) or rev(lst, j):
+                        k += 1
+                        if k == i and not done:
+                            if fwd(lst, j):
+                                new = ast.Return(value=ast.IfExp(test=lst[j].test, body=lst[j].body[0].value, orelse=lst[j + 1].value))
+                                lst[j:j + 2] = [ast.copy_location(new, lst[j])]
+                            else:
+                                e = lst[j].value
+                                lst[j:j + 1] = [ast.copy_location(ast.If(test=e.test, body=[ast.Return(value=e.body)], orelse=[]), lst[j]), ast.copy_location(ast.Return(value=e.orelse), lst[j])]
+                            done = True
+                            break
+                if done:
+                    break
+            if done:
+                break
+        if done:
+            ast.fix_missing_locations(t2)
+            yield f"return-ifexp:{fn_name}:{i}", ast.unparse(t2)
+
+
+def twins_swap_independent(fn_name, src):
+    """a = e1; b = e2  ->  b = e2; a = e1   for adjacent assignments to distinct plain names with pure right sides
+    that do not read each other's target"""
+    def names(e):
+        return {x.id for x in ast.walk(e) if isinstance(x, ast.Name)}
+    def ok(lst, j):
+        if j + 1 >= len(lst):
+            return False
+        a, b = lst[j], lst[j + 1]
+        if not all(isinstance(s, ast.Assign) and len(s.targets) == 1 and isinstance(s.targets[0], ast.Name) and _pure(s.value) for s in (a, b)):
+            return False
+        ta, tb = a.targets[0].id, b.targets[0].id
+        return ta != tb and ta not in names(b.value) and tb not in names(a.value)
+    tree = ast.parse(src)
+    n_sites = sum(1 for fn in _functions(tree) for _, _, lst in _stmt_lists(fn) for j in range(len(lst)) if ok(lst, j))
+    for i in range(n_sites):
+        if not _want(i):
+            continue
+        t2 = ast.parse(src)
+        k = -1
+        done = False
+        for fn in _functions(t2):
+            for _, _, lst in _stmt_lists(fn):
+                for j in range(len(lst)):
+                    if ok(lst, j):
+                        k += 1
+                        if k == i and not done:
+                            lst[j], lst[j + 1] = lst[j + 1], lst[j]
+                            done = True
+                            break
+                if done:
+                    break
+            if done:
+                break
+        if done:
+            yield f"swap-independent:{fn_name}:{i}", ast.unparse(t2)
+
+
 def twins_pyx():
     for fn, old, new in PYX_RENAMES:
         s = _read(fn)
@@ -328,6 +521,11 @@ FAMILIES = {
     "else-after-jump": twins_else_after_jump,
     "nested-and": twins_nested_and,
     "demorgan": twins_demorgan,
+    "annotate-assign": twins_annotate_assign,
+    "chain-compare": twins_chain_compare,
+    "extract-temp": twins_extract_temp,
+    "return-ifexp": twins_return_ifexp,
+    "swap-independent": twins_swap_independent,
 }
 
 
@@ -338,7 +536,7 @@ def gen_twins(families=None, root=None, files=None, shard=None):
     for fam, gen in FAMILIES.items():
         if families and fam not in families:
             continue
-        if shard is not None and shard[0] != 0 and fam in ("reformat", "permissive"):
+        if shard is not None and shard[0] != 0 and fam in ("reformat", "permissive", "annotate-assign"):
             continue  # unsharded families: built by shard 0 only
         for fn in PY_TARGETS:
             if files is not None and fn not in files:
